@@ -30,9 +30,12 @@ type caseC20 struct {
 	Script2 []readStep `json:"script2,omitempty"`
 }
 
-var lineColRe = regexp.MustCompile(`line \d+:\d+`)
+// positions are the one thing that legitimately differs between two
+// renderings: the 'line L:C' prefix of a diagnostic, and any further
+// line:column a message may mention
+var lineColRe = regexp.MustCompile(`\b\d+:\d+\b`)
 
-func stripPos(s string) string { return lineColRe.ReplaceAllString(s, "line L:C") }
+func stripPos(s string) string { return lineColRe.ReplaceAllString(s, "L:C") }
 
 func diagMessages(log string) []string {
 	var out []string
